@@ -48,6 +48,7 @@ func ReadPointCloud(in io.Reader) (*modeling.Mesh, error) {
 	readIntensity := false
 	readColor := false
 
+	fields := -1
 	curLine := 0
 	for scanner.Scan() && curLine < parsedCount {
 		line := strings.TrimSpace(scanner.Text())
@@ -59,6 +60,14 @@ func ReadPointCloud(in io.Reader) (*modeling.Mesh, error) {
 
 		if len(contents) < 3 {
 			return nil, fmt.Errorf("pts point %d has %d fields, expected at least 3: %w", curLine, len(contents), io.ErrUnexpectedEOF)
+		}
+
+		// Every point of a file carries the same columns. A line with fewer
+		// (a file cut mid-line) would otherwise keep zeroed intensity / color
+		if fields < 0 {
+			fields = len(contents)
+		} else if len(contents) != fields {
+			return nil, fmt.Errorf("pts point %d has %d fields, expected %d: %w", curLine, len(contents), fields, io.ErrUnexpectedEOF)
 		}
 
 		pos, err := ParseVec3(contents[0], contents[1], contents[2])
